@@ -22,10 +22,10 @@ import (
 // continuation. Oracles: order clause, cut invariants, differential final state.
 
 type c09Scenario struct {
-	N       int
-	Method  string
-	GenSel  bool
-	Second  int // sync index at which a second template change arrives (-1 none)
+	N      int
+	Method string
+	GenSel bool
+	Second int // sync index at which a second template change arrives (-1 none)
 }
 
 type c09Dev struct {
